@@ -146,6 +146,7 @@ type Record struct {
 	Payload  []byte    `json:"payload"`
 	Children []*Record `json:"children,omitempty"` // filled by FrameTree for grouped codes
 	IsGroup  bool      `json:"is_group,omitempty"`
+	Pad      []byte    `json:"pad,omitempty"` // the padding bytes that followed the payload
 }
 
 // ErrLenientTail marks a container whose last AVP lacks (some of) its
@@ -180,6 +181,7 @@ func Frame(b []byte) ([]*Record, error) {
 		if adv > len(rest) {
 			return out, ErrLenientTail
 		}
+		r.Pad = rest[r.Declared:adv]
 		off += adv
 	}
 	return out, nil
